@@ -75,7 +75,10 @@ async fn exchange_any(sock: &mut Sock, c: &mut ConnRec, seq: u32) -> Result<(), 
 async fn scenario(ty: &str, transport: &str, bad: &[(usize, String)]) -> Out {
     let mut o = Out { viol: vec![], inconc: vec![], counts: vec![] };
     let mut sock = Sock::new(ty, None);
-    let mut mon = sock.monitor();
+    // the monitor the application holds is the one it asked for last: before it bound, after
+    // it bound, or a second one replacing the first
+    let mon_when = ["before", "after", "replaced"][bad.len() % 3];
+    let early = if mon_when != "after" { Some(sock.monitor()) } else { None };
     let ep = match sock.bind(&rig::bind_endpoint(transport)).await {
         Ok(e) => e,
         Err(e) => {
@@ -83,6 +86,14 @@ async fn scenario(ty: &str, transport: &str, bad: &[(usize, String)]) -> Out {
             return o;
         }
     };
+    let mut mon = match (mon_when, early) {
+        ("before", Some(m)) => m,
+        (_, early) => {
+            drop(early);
+            sock.monitor()
+        }
+    };
+    o.counts.push((format!("monitor_requested/{mon_when}"), 1));
     let hs = rc::handshake(peer_type_for(ty), Some(b"bad-client"));
     let mut seq = 0u32;
     let mut good: Vec<ConnRec> = Vec::new();
@@ -182,7 +193,7 @@ async fn scenario(ty: &str, transport: &str, bad: &[(usize, String)]) -> Out {
         if rig::canary_ok().await {
             o.viol.push((
                 sig("failed-handshake-not-reported"),
-                format!("{n_close} clients ended their stream mid-handshake ({n_fin} of them by an orderly half-close) ({bad:?}); the monitor reported {failed} accept failures"),
+                format!("{n_close} clients ended their stream mid-handshake ({n_fin} of them by an orderly half-close) ({bad:?}); the monitor the application holds (requested {mon_when} bind) reported {failed} accept failures"),
             ));
         } else {
             o.inconc.push("monitor wait expired while the canary was slow".into());
@@ -298,6 +309,84 @@ async fn monitor_overflow(ty: &str, transport: &str, burst: usize) -> Out {
     o
 }
 
+/// A client pauses for longer than any "reasonable" handshake interval (33 s) in the middle
+/// of its greeting and then carries on: it was only delayed — it completes its handshake and
+/// is served; if the library gave up on it instead, that is a failed handshake and is
+/// reported as one. Good clients come and go meanwhile.
+async fn long_pause(ty: &str, transport: &str, secs: u64) -> Out {
+    let mut o = Out { viol: vec![], inconc: vec![], counts: vec![] };
+    let mut sock = Sock::new(ty, None);
+    let mut mon = sock.monitor();
+    let ep = match sock.bind(&rig::bind_endpoint(transport)).await {
+        Ok(e) => e,
+        Err(e) => {
+            o.inconc.push(format!("bind: {e}"));
+            return o;
+        }
+    };
+    let sig = |k: &str| format!("C20/{k}/{ty}");
+    let hs = rc::handshake(peer_type_for(ty), Some(b"slow-but-honest"));
+    let Ok(mut slow) = Raw::connect(&ep).await else {
+        o.inconc.push("connect".into());
+        return o;
+    };
+    let _ = slow.write_all(&hs[..11]).await;
+    let mut seq = 0u32;
+    let t0 = std::time::Instant::now();
+    while t0.elapsed() < Duration::from_secs(secs) {
+        if let Err(e) = good_client(&mut sock, &ep, ty, "good-meanwhile", &mut seq).await {
+            if rig::canary_ok().await {
+                o.viol.push((sig("good-client-blocked-during"), format!("while a client paused mid-greeting: {e}")));
+            } else {
+                o.inconc.push(e);
+            }
+            return o;
+        }
+        tokio::time::sleep(Duration::from_secs(4)).await;
+    }
+    // the paused client carries on
+    let resumed = async {
+        slow.write_all(&hs[11..]).await.map_err(|e| format!("write: {e}"))?;
+        let mut acc = Vec::new();
+        slow.read_exact_or(&mut acc, 64 + 2, WAIT).await.map_err(|e| format!("no greeting+READY from the library: {e:?}"))?;
+        Ok::<(), String>(())
+    }
+    .await;
+    let (mut accepted, mut failed) = (0, 0);
+    let deadline = std::time::Instant::now() + Duration::from_millis(1500);
+    while std::time::Instant::now() < deadline {
+        match tokio::time::timeout(Duration::from_millis(50), mon.next()).await {
+            Ok(Some(SocketEvent::Accepted(_, id))) => {
+                if format!("{id:?}").contains("slow") || Vec::<u8>::from(id.clone()) == b"slow-but-honest".to_vec() {
+                    accepted += 1;
+                }
+            }
+            Ok(Some(SocketEvent::AcceptFailed(_))) => failed += 1,
+            Ok(None) => break,
+            _ => {}
+        }
+    }
+    match resumed {
+        Ok(()) => o.counts.push(("clients_admitted_after_a_long_pause".into(), 1)),
+        Err(e) => {
+            if failed == 0 {
+                if rig::canary_ok().await {
+                    o.viol.push((
+                        sig("failed-handshake-not-reported"),
+                        format!("a client paused for {secs} s after 11 greeting bytes and then sent the rest: {e}; the monitor reported {failed} accept failures and {accepted} admissions of it (it was given up on silently)"),
+                    ));
+                } else {
+                    o.inconc.push(e);
+                }
+            } else {
+                o.counts.push(("long_pauses_ended_by_a_reported_failure".into(), 1));
+            }
+        }
+    }
+    let _ = tokio::time::timeout(WAIT, sock.close()).await;
+    o
+}
+
 impl Prop for C20 {
     fn id(&self) -> &'static str {
         "C20"
@@ -306,6 +395,12 @@ impl Prop for C20 {
     fn cases(&self, tier: Tier, seed: u64) -> Vec<Value> {
         let n = rc::handshake("REQ", Some(b"bad-client")).len() + 4; // longest peer type name is close enough; clamped later
         let mut v = Vec::new();
+        // (first in the list: it runs alongside everything else)
+        v.push(json!({"kind": "long_pause", "ty": "REP", "transport": "tcp4", "secs": 33}));
+        if tier == Tier::Thorough {
+            v.push(json!({"kind": "long_pause", "ty": "PULL", "transport": "ipc", "secs": 33}));
+            v.push(json!({"kind": "long_pause", "ty": "ROUTER", "transport": "tcp4", "secs": 65}));
+        }
         for (ty, transport) in [("REP", "tcp4"), ("PULL", "ipc"), ("XPUB", "tcp4")] {
             v.push(json!({"kind": "monitor_overflow", "ty": ty, "transport": transport, "burst": 1300}));
         }
@@ -354,6 +449,21 @@ impl Prop for C20 {
     }
 
     fn run(&self, case: &Value, ctx: &mut Ctx) {
+        if s(case, "kind") == "long_pause" {
+            ctx.eval(hash_str(&case.to_string()), true);
+            ctx.sample("long_pause", || case.clone());
+            let (o, _) = rig::run(2, long_pause(s(case, "ty"), s(case, "transport"), u(case, "secs")));
+            for (k, n) in o.counts {
+                ctx.add(&k, n);
+            }
+            for i in o.inconc {
+                ctx.inconclusive(format!("C20 long pause: {i}"));
+            }
+            for (sig, msg) in o.viol {
+                ctx.violation_with(&sig, msg, case.clone());
+            }
+            return;
+        }
         if s(case, "kind") == "monitor_overflow" {
             ctx.eval(hash_str(&case.to_string()), true);
             ctx.sample("monitor_overflow", || case.clone());
